@@ -139,6 +139,40 @@ fn main() {
             let prop = property_of(path);
             dispatch!(prop.as_str(), do_minimise, path, out, budget)
         }
+        "fidelity" => {
+            // the corpus of the seam-fidelity self-test, simulated at --cpus k
+            let k: usize = arg(&args, "--cpus").expect("--cpus").parse().expect("cpus");
+            println!("cpus {k}");
+            let conf = exec::Conf {
+                cpu: Some(k),
+                sched: sched::SchedSpec { kind: sched::SchedKind::Random, seed: 42 },
+                trace: None,
+            };
+            for (i, (kind, d, e)) in vmodel::gen::fidelity_corpus().into_iter().enumerate() {
+                let op = match kind {
+                    "complement" => ops::TOp::ListComplement { d: d.clone() },
+                    "complete" => ops::TOp::ListComplete { order: d.order() },
+                    "degree_sequence" => ops::TOp::ListDegreeSequence { d: d.clone() },
+                    "is_semicomplete" => ops::TOp::ListIsSemicomplete { d: d.clone() },
+                    "list_union" => ops::TOp::ListUnion { d: d.clone(), e: e.clone() },
+                    _ => ops::TOp::MapUnion { d: d.clone(), e: e.clone() },
+                };
+                let rep = lanes::exec_top(&op, &conf, 1);
+                let Some(res) = rep.value else {
+                    println!("{i} {kind} execution-failed");
+                    continue;
+                };
+                let exp = op.expected().expect("deterministic op");
+                let ok = ops::compare(&res[0].out, &exp).is_ok();
+                let line = match &res[0].out {
+                    ops::Out::Dg(o) => vmodel::gen::fidelity_line(kind, i, &o.verts, &o.arcs, &[], false, ok),
+                    ops::Out::Seq(s) => vmodel::gen::fidelity_line(kind, i, &[], &[], s, false, ok),
+                    ops::Out::Bool(b) => vmodel::gen::fidelity_line(kind, i, &[], &[], &[], *b, ok),
+                };
+                println!("{line}");
+            }
+            0
+        }
         "distinct" => {
             // count distinct 64-bit digests over several files
             let mut all: Vec<u64> = Vec::new();
